@@ -618,8 +618,13 @@ class Subspace(IdealPoint):
         #it as a kernel works for every position of the subspace,
         #including subspaces through the origin of the ball, where the
         #sphere parameters degenerate.
+        #the ideal basis consists of projective representatives of any
+        #size, while the kernel is found with an absolute tolerance on
+        #singular values: rescale the rows first
+        unit_basis = utils.normalize(np.array(self.ideal_basis, copy=True))
+
         complement = utils.kernel(
-            self.ideal_basis @ self.minkowski
+            unit_basis @ self.minkowski
         ).swapaxes(-1, -2)
 
         return np.concatenate([complement[..., :1, :], self.ideal_basis],
